@@ -63,6 +63,7 @@ struct Sub {std::string pattern; std::string filter;};   // as the client asked 
 struct Client
 {
    bool attached, blocked, tainted, usedFilter;   // tainted: quiet flags / disabled subscriptions used => C04/C13 oracles not applicable
+   bool dupSpelling;                 // two SUBSCRIBE parameter names that normalise to one path were in use at the same time (finding F10)
    ConstSocketRef sock;
    MessageIOGateway * gw;
    VSession * session;               // owned by the server
@@ -74,7 +75,7 @@ struct Client
    std::map<std::string, ConstMessageRef> mirrorMsg;           // node path -> payload (for the client-side filter test on unsubscribe)
    std::map<std::string, std::vector<std::string> > idx;       // node path -> index (names)
    std::vector<std::string> inbox;                             // canonical descriptions of what arrived since the last pump line
-   Client() : attached(false), blocked(false), tainted(false), usedFilter(false), gw(NULL), session(NULL), reflectSelf(false), hasRoute(false) {}
+   Client() : attached(false), blocked(false), tainted(false), usedFilter(false), dupSpelling(false), gw(NULL), session(NULL), reflectSelf(false), hasRoute(false) {}
 };
 
 static volatile long g_opDeadlineLine = 0;
@@ -314,7 +315,11 @@ struct SrvEngine : public Engine
                if (f == have.end()) d += " missing:" + it->first; else if (f->second != it->second) d += " stale:" + it->first;
             }
             for (std::map<std::string,std::string>::const_iterator it = have.begin(); it != have.end(); ++it) if (want.count(it->first) == 0) d += " extra:" + it->first;
-            oracleFail("C04: mirror of session " + c.sid + " differs from the matching set:" + d);
+            // (tags name the premises of open findings, so that known_findings.json can tell them from any other divergence)
+            std::string tag;
+            if (c.dupSpelling) tag += " [F10: two SUBSCRIBE spellings of one path were in use]";
+            if (d.find("//") != std::string::npos) tag += " [F11: node path with an empty clause]";
+            oracleFail("C04: mirror of session " + c.sid + " differs from the matching set:" + d + tag);
          }
          // C13: for every matching node the replayed index equals the server's index
          for (size_t k=1; k<nodes.size(); k++)
@@ -491,6 +496,11 @@ struct SrvEngine : public Engine
          if (f()) {MessageRef fm = GetMessageFromPool(); (void) f()->SaveToArchive(*fm()); (void) m()->AddMessage(pn, fm);}
              else (void) m()->AddBool(pn, true);
          if (quiet) {(void) m()->AddBool(PR_NAME_SUBSCRIBE_QUIETLY, true); c.tainted = true;}
+         {
+            String np0 = MS(p); PathMatcher tmp; tmp.AdjustStringPrefix(np0, "*/*");
+            for (std::map<std::string, Sub>::const_iterator it = c.subs.begin(); it != c.subs.end(); ++it)
+               if (it->first != S(pn)) {String np1 = MS(it->second.pattern); tmp.AdjustStringPrefix(np1, "*/*"); if (np1 == np0) c.dupSpelling = true;}
+         }
          Sub s; s.pattern = p; s.filter = t[4]; c.subs[S(pn)] = s;
          if (f()) c.usedFilter = true;
       }
